@@ -10,6 +10,9 @@ package c14
 import (
 	_ "embed"
 	"fmt"
+	"os"
+	"path/filepath"
+	"sort"
 	"strings"
 	"sync"
 
@@ -179,7 +182,31 @@ func (l *lister) lists(vals []*ga.Val, nrand int) []*ga.Val {
 	return out
 }
 
+// loadCorpus reads corpus/C14/*.txt: "<Go element type>|<case line with %d for the type index>".
+func loadCorpus(dir string) map[string][]string {
+	out := map[string][]string{}
+	files, _ := filepath.Glob(filepath.Join(dir, "*.txt"))
+	sort.Strings(files)
+	for _, f := range files {
+		b, err := os.ReadFile(f)
+		if err != nil {
+			continue
+		}
+		for _, l := range strings.Split(string(b), "\n") {
+			l = strings.TrimSpace(l)
+			if l == "" || l[0] == '#' {
+				continue
+			}
+			if i := strings.IndexByte(l, '|'); i > 0 {
+				out[l[:i]] = append(out[l[:i]], l[i+1:])
+			}
+		}
+	}
+	return out
+}
+
 func Run(cfg hx.Config) (*hx.Meta, error) {
+	corpus := loadCorpus(cfg.Corpus)
 	nrand, npairs := 3, 14
 	if cfg.Tier == "thorough" {
 		nrand, npairs = 10, 50
@@ -195,6 +222,9 @@ func Run(cfg hx.Config) (*hx.Meta, error) {
 			return true
 		},
 		Cases: func(idx int, t *ga.Type, vals []*ga.Val, r *hx.Rand, out *strings.Builder) {
+			for _, c := range corpus[t.Go(0)] {
+				out.WriteString(strings.Replace(c, "%d", fmt.Sprint(idx), 1) + "\n")
+			}
 			l := &lister{next: 1000000, r: r}
 			ls := l.lists(vals, nrand)
 			key := goComparable(t)
